@@ -34,7 +34,7 @@ namespace adm {
   // ---- isDefault ---- //
   bool AudioBlockFormatMatrix::isDefault(
       detail::ParameterTraits<Rtime>::tag) const {
-    return duration_ == boost::none;
+    return rtime_ == boost::none;
   }
 
   // ---- Setter ---- //
